@@ -178,6 +178,11 @@ inductive Mod where
   /-- purge (`none`) or purge-and-set (`some c`) `PrimaryCredential` (every credential update
   that changes the credential gives it a new uuid — `Credential::update_password` etc.) -/
   | setPrimary (c : Option Nat)
+  /-- a credential-update commit that changed the primary credential (`set_password`,
+  `append_totp`, `remove_totp`, backup-code changes): `Credential::update_password` & co. build the
+  new credential with `uuid: Uuid::new_v4()` (`fresh`) — or keep the old id if they do not rotate
+  (generated `credUpdateRotatesId`); without a primary credential a new one is created -/
+  | updatePrimary (fresh : Nat)
   | addPasskey (c : Nat)
   | delPasskey (c : Nat)
   | addAttested (c : Nat)
@@ -200,6 +205,10 @@ deriving DecidableEq, Repr
 
 def applyMod (cid : Nat) (e : Entry) : Mod → Entry
   | .setPrimary c => { e with primary := c }
+  | .updatePrimary fresh =>
+    { e with primary := match e.primary with
+        | some old => some (if credUpdateRotatesId then fresh else old)
+        | none => some fresh }
   | .addPasskey c => { e with passkeys := if e.passkeys.contains c then e.passkeys else e.passkeys ++ [c] }
   | .delPasskey c => { e with passkeys := e.passkeys.filter (· ≠ c) }
   | .addAttested c => { e with attested := if e.attested.contains c then e.attested else e.attested ++ [c] }
@@ -249,6 +258,13 @@ def withinWindow (e : Entry) (ct : Nat) : Bool :=
   (match e.validFrom with | some v => decide (v ≤ ct) | none => true) &&
   (match e.expire with | some x => decide (ct ≤ x) | none => true)
 
+/-- The closure `session_state_live` of `check_oauth2_account_uuid_valid` (since fix dd5d9e6 an
+expired session is refused like a revoked one, without waiting for the plugin's next run). -/
+def chkStateLive (ct : Nat) : SState → Bool
+  | .revokedAt _ => chkLiveRevoked
+  | .expiresAt exp => chkLiveExpires exp ct
+  | .neverExpires => chkLiveNever
+
 /-- `check_oauth2_account_uuid_valid(uuid, session_id, parent_session_id, iat, ct)` on the
 entry found for `uuid`: `true` = `Ok(Some(entry))`, `false` = `Ok(None)`.
 `parent` is what the *token* carries. -/
@@ -258,12 +274,12 @@ def o2Check (e : Entry) (sid : Nat) (parent : Option Nat) (iat ct : Nat) : Bool 
     let graceValid := chkGraceValid ct iat graceWindow
     match lookup e.o2s sid with
     | some o =>
-      if !chkO2SessionValid (isRevoked o.state) then chkO2Invalid
+      if !chkO2SessionValid (chkStateLive ct o.state) then chkO2Invalid
       else
         match parent with
         | some p =>
           match e.uats.bind (fun m => lookup m p) with
-          | some u => if chkParentValid (isRevoked u.state) then chkParentLive else chkParentInvalid
+          | some u => if chkParentValid (chkStateLive ct u.state) then chkParentLive else chkParentInvalid
           | none =>
             if e.apis.contains p then chkParentMissingApi
             else if graceValid then chkParentMissingGrace
